@@ -13,6 +13,7 @@ import (
 var c17Tails = []string{
 	".a", ".b", ".a.b", ".a[0]", "[0]", "[-1]", "[0].a", ".a[*]", ".a[*].b", "[*]", "[*].a", ".*", ".*.a", ".a.*", "[?a]", "[?a].b", ".a[?@]", "[?@ == `1`]",
 	"[1:]", "[::-1].a", ".a[:1]", ".[a, b]", ".{x: a, y: b}", ".[a]", ".{x: a}", ".length(@)", ".type(@)", ".not_null(a, b)", ".to_array(a)", ".keys(@)",
+	".a.to_array(@)[*]", ".a.to_array(@)[0:]", ".a.keys(@)[*]", ".a.not_null(@, `[1]`)[*]", ".a.to_string(@)", ".a.type(@)", ".b.to_array(@)[*].a", ".a.length(to_array(@))",
 	".a | [0]", ".a || `\"dflt\"`", ".a && b", ".a == `1`", "[].a", ".a[]", "[*][0]", "[*].*", ".[a, b][0]", ".{x: a}.x",
 }
 
@@ -70,6 +71,10 @@ type c17Inst struct {
 	needNonNull string
 	// dropNulls: remove nulls from the rhs result before comparing
 	dropNulls bool
+	// base: the expression whose value is projected (to look for null elements)
+	base string
+	// tail: the selectors following the projection
+	tail string
 }
 
 func c17Instances(base, tail, filt string) []c17Inst {
@@ -115,6 +120,10 @@ func c17Instances(base, tail, filt string) []c17Inst {
 	e := base
 	if tail != "" && simpleTail && base != "@" && !isProjText(base) {
 		e = base + tail
+	}
+	for i := range out {
+		out[i].base = base
+		out[i].tail = tail
 	}
 	out = append(out, c17Inst{schema: "hash-select", lhs: "{k: " + e + "}.k", rhs: e, needNonNull: "@"})
 	out = append(out, c17Inst{schema: "hash-select-2", lhs: "{j: " + filt + ", k: " + e + "}.k", rhs: e, needNonNull: "@"})
@@ -285,6 +294,8 @@ func c17Random(c *Ctx, idx int) {
 		{schema: "hash-select", lhs: "{k: " + x + "." + e + "}.k", rhs: x + "." + e, needNonNull: "@"},
 	}
 	for _, in := range insts {
+		in.base = x
+		in.tail = "." + e
 		if ref.Parse(in.lhs).Status != ref.ParseOK || ref.Parse(in.rhs).Status != ref.ParseOK {
 			continue
 		}
@@ -376,13 +387,47 @@ func (c *Ctx) c17Applicable(in c17Inst, doc ref.V, goDoc any) bool {
 	// pinned (order-dependent enumerations; null elements of a projection
 	// meeting a multi-select or function, where the schemata contradict
 	// each other)
-	if m := ref.Search(in.lhs, doc); m.Unspec {
-		c.Count("dropped_not_judged_by_model", 1)
-		return false
+	if in.base != "" && nullSensitiveTail(in.tail) && (strings.HasSuffix(in.schema, "-then-selectors") || in.schema == "projection-vs-map" || in.schema == "paren-ends-projection") {
+		// the schemata contradict each other when the projected array has null
+		// elements and a selector of the tail does not map null to null
+		if b := ref.Search(in.base, doc); b.Unspec || b.Fault != 0 || containsNullNear(b.Val, 3) {
+			c.Count("dropped_null_elements", 1)
+			return false
+		}
 	}
-	if m := ref.Search(in.rhs, doc); m.Unspec {
-		c.Count("dropped_not_judged_by_model", 1)
-		return false
+	for _, t := range []string{in.lhs, in.rhs} {
+		m := ref.Search(t, doc)
+		if !m.Unspec {
+			continue
+		}
+		if dropReason(m.Why) || Enumerates(t) {
+			// (an enumerating expression the model does not judge may depend on member order)
+			c.Count("dropped_not_judged_by_model", 1)
+			return false
+		}
+		if strings.Contains(m.Why, "null element of a projection") || strings.Contains(m.Why, "sub-expression on null") {
+			// the schemata contradict each other only when the projected array
+			// really has null elements
+			if in.base == "" {
+				c.Count("dropped_not_judged_by_model", 1)
+				return false
+			}
+			if b := ref.Search(in.base, doc); b.Unspec || b.Fault != 0 || containsNullNear(b.Val, 3) {
+				c.Count("dropped_null_elements", 1)
+				return false
+			}
+		}
 	}
 	return true
+}
+
+// dropReason: only these abstentions of the model make an identity instance
+// unjudgeable (the comparison itself is library against library).
+func dropReason(why string) bool {
+	for _, m := range []string{"order", "undetermined", "width beyond", "grammar gap"} {
+		if strings.Contains(why, m) {
+			return true
+		}
+	}
+	return false
 }
